@@ -361,8 +361,13 @@ def _worker(job):
     pid, tier, seed, name, fn, args = job
     symx.STATS.reset()
     sub = Report(pid, tier, seed, sub=True)
-    guarded(sub, name, fn, sub, *args)
-    return sub.export()
+    try:
+        guarded(sub, name, fn, sub, *args)
+        return sub.export()
+    finally:
+        # pool workers leave through os._exit: atexit handlers do not run, so the scratch of rebuilt extensions is removed here
+        from . import cxxbuild
+        cxxbuild._cleanup()
 
 
 def run_parallel(rep, tasks, workers=None):
